@@ -627,6 +627,75 @@ func (env *Env) callExpr(x *ECall) (TV, error) {
 			return TV{}, err
 		}
 		return env.coerce(args[0], tAny), nil
+	case "addr":
+		// addr(p.f): the first-class pointer &p.f to a by-value field of *p (the encoding addrValue gives a FieldAddr)
+		if len(x.Args) != 1 {
+			return TV{}, errf("addr takes one argument")
+		}
+		sl, ok := x.Args[0].(*ESel)
+		if !ok {
+			return TV{}, errf("addr needs a field selection p.f")
+		}
+		base, err := env.tr(sl.X)
+		if err != nil {
+			return TV{}, err
+		}
+		pt, ok := base.ty.Underlying().(*types.Pointer)
+		if !ok {
+			return TV{}, errf("addr(p.f): p must be a pointer to a struct")
+		}
+		st, ok := pt.Elem().Underlying().(*types.Struct)
+		if !ok {
+			return TV{}, errf("addr(p.f): p must be a pointer to a struct")
+		}
+		for i := 0; i < st.NumFields(); i++ {
+			if st.Field(i).Name() == sl.Name {
+				f := sym("sub$" + enc.typeKey(pt.Elem()) + "$" + sl.Name)
+				if _, ok := enc.subIdx[f]; !ok {
+					enc.subIdx[f] = len(enc.subIdx) + 1
+				}
+				enc.decl("sub:"+f, fmt.Sprintf("(define-fun %s ((r Int)) Int (- (- (* r 1024)) %d))", f, enc.subIdx[f]))
+				return TV{t: app(f, base.t), ty: types.NewPointer(st.Field(i).Type())}, nil
+			}
+		}
+		return TV{}, errf("addr: no field %s", sl.Name)
+	case "reflectValueOf", "reflectKind", "reflectIsNil", "reflectIsValid", "reflectLen":
+		// the uninterpreted functions that stand for the reflect library calls of the same name in function bodies
+		// (pureCall): lets a contract speak about reflect.ValueOf(x).Kind() etc.
+		if err := evalArgs(); err != nil {
+			return TV{}, err
+		}
+		if len(args) != 1 {
+			return TV{}, errf("%s takes one argument", x.Fn)
+		}
+		rp := env.vc.w.prog.ImportedPackage("reflect")
+		if rp == nil {
+			return TV{}, errf("%s: package reflect not loaded", x.Fn)
+		}
+		valT := rp.Pkg.Scope().Lookup("Value").Type()
+		valSort := enc.sortOf(valT)
+		uf := func(full string, argSort, resSort string, a Term) Term {
+			f := sym(fmt.Sprintf("uf$%s$%d$%s", full, 0, argSort))
+			enc.decl("uf:"+f, fmt.Sprintf("(declare-fun %s (%s) %s)", f, argSort, resSort))
+			return app(f, a)
+		}
+		if x.Fn == "reflectValueOf" {
+			a := env.coerce(args[0], tAny)
+			return TV{t: uf("reflect.ValueOf", "Any", valSort, a.t), ty: valT}, nil
+		}
+		if enc.sortOf(args[0].ty) != valSort {
+			return TV{}, errf("%s: argument must be a reflect.Value", x.Fn)
+		}
+		switch x.Fn {
+		case "reflectKind":
+			return TV{t: uf("(reflect.Value).Kind", valSort, "Int", args[0].t), ty: tInt}, nil
+		case "reflectIsNil":
+			return TV{t: uf("(reflect.Value).IsNil", valSort, "Bool", args[0].t), ty: tBool}, nil
+		case "reflectIsValid":
+			return TV{t: uf("(reflect.Value).IsValid", valSort, "Bool", args[0].t), ty: tBool}, nil
+		default:
+			return TV{t: uf("(reflect.Value).Len", valSort, "Int", args[0].t), ty: tInt}, nil
+		}
 	case "sameheap":
 		// sameheap(T): component of type T unchanged since entry (for old objects)
 		return TV{}, errf("sameheap not implemented")
